@@ -167,10 +167,11 @@ func hostMatchesDomain(host, domain string) bool {
 // https://tools.ietf.org/id/draft-ietf-oauth-security-topics-10.html states
 // that redirects MUST be exact matches.
 // We allow our users to be less strict (for facilitation of internal deployments).
-// however we make 3 things mandatory:
+// however we make 4 things mandatory:
 // 1. redirect_urls scheme MUST be https (to prevent code snooping).
 // 2. redirect_urls MUST not include a query  (to prevent stealing of code with faulty clients (open redirect))
 // 3. redirect_url path MUST NOT contain ".." to prevent path traversal attacks
+// 4. redirect_urls MUST have a host (so that what is matched is where the browser goes)
 func (client *OpenIDConnectClientConfig) CanRedirectToURL(redirectUrl string) (bool, *url.URL, error) {
 	if len(client.AllowedRedirectDomains) < 1 && len(client.AllowedRedirectURLRE) < 1 {
 		return false, nil, nil
@@ -198,6 +199,12 @@ func (client *OpenIDConnectClientConfig) CanRedirectToURL(redirectUrl string) (b
 		return false, nil, nil
 	}
 	if strings.Contains(parsedURL.Path, "..") {
+		return false, nil, nil
+	}
+	// A redirect target without a host ("https:/\evil.example/", "https:///x")
+	// is still sent to a host by browsers: they skip any run of slashes and
+	// backslashes after the scheme.
+	if parsedURL.Hostname() == "" {
 		return false, nil, nil
 	}
 	// if no domains, the matchedRE answer is authoritative
